@@ -104,6 +104,27 @@ RestoreCalls(firstEnc) ==
 RECURSIVE EffSeq(_, _)
 EffSeq(o, cs) == IF cs = <<>> THEN o ELSE EffSeq(Eff(o, Head(cs)), Tail(cs))
 
+(***************** which registers an operation may depend on *****************)
+\* "an option changes only the behaviour it documents": every operation class is a function
+\* of the registers listed here and of nothing else (the signature of the corresponding
+\* specification operator).  Bound to the code by the harness: the result under any
+\* reachable `opt` must equal the result with every register NOT listed reset to its default.
+DecodeRegs == {"attrPrefix", "tagSeq", "lower", "snake", "keepSpaces", "simpleAsMap", "xmpp", "escDec", "keyPrefix"}
+CastRegs   == {"castInt", "castFloat", "castBool", "castNanInf", "skipTag"}
+SeqDecodeRegs == {"snake", "keepSpaces", "xmpp", "escDec", "keyPrefix"}
+Relevant == [decode     |-> DecodeRegs,                      \* NewMapXml(doc)
+             decodeCast |-> DecodeRegs \cup CastRegs,        \* NewMapXml(doc, true)
+             decodeSeq  |-> SeqDecodeRegs,                   \* NewMapXmlSeq(doc)
+             decodeSeqCast |-> SeqDecodeRegs \cup (CastRegs \ {"skipTag"}),   \* documented: the skip function does not apply to NewMapXmlSeq
+             encode     |-> {"attrPrefix", "goEmpty", "checkValid", "escEnc", "keyPrefix"},   \* Map.Xml / XmlIndent / AnyXml
+             encodeSeq  |-> {"goEmpty", "checkValid", "escEnc", "keyPrefix"},                 \* MapSeq.Xml / XmlIndent
+             jsonEncode |-> {},                              \* Json / JsonIndent
+             jsonDecode |-> {"jsonUseNumber"},               \* NewMapJson
+             leaf       |-> {"attrPrefix", "dot", "keyPrefix"},   \* LeafNodes(no_attr)
+             query      |-> {"fieldSep"},                    \* ValuesForPath / ValuesForKey / UpdateValuesForPath with sub-keys
+             struct     |-> {"attrPrefix"}]                  \* Elements / Attributes
+Project(o, regs) == [f \in DOMAIN o |-> IF f \in regs THEN o[f] ELSE InitOpt[f]]
+
 (******************************** properties ********************************)
 IsExplicit(c) == c.arg # "none" \/ c.fn \in {"XmlGoEmptyElemSyntax", "XmlDefaultEmptyElemSyntax"}
 \* each setter called with an explicit value is idempotent
